@@ -60,7 +60,7 @@ class World:
             pp = rng.uniform(0, 0.3) if mode == "P" else None
             self.conds.append(Conditions(membrane_area=rng.uniform(0.01, 1.0), initial_feed_temperature=self.t, initial_feed_amount=rng.uniform(5, 50),
                                          initial_feed_composition=rng.choice(self.comps), permeate_temperature=tp, permeate_pressure=pp,
-                                         temperature_program=gen.gen_program(rng, self.t, 1.0) if rng.random() < 0.3 else None))
+                                         temperature_program=gen.gen_program(rng, self.t, 1.0, ndarray=0.5) if rng.random() < 0.5 else None))
         law, _ = gen.synth_permeance_law(rng)
         self.meas = Measurements(data=[Measurement(x=rng.uniform(0.05, 0.95), t=rng.choice([310.0, 330.0]), p=law(rng.uniform(0.05, 0.95), 320.0)) for _ in range(8)])
         self.init_perm = None
